@@ -31,6 +31,7 @@ def handle (rep : Report) (ln : Nat) (toks : List String) (obs : String) : Repor
       let mine : String := match marshal field wire (some std) with
         | some b => s!"out={toHex b}"
         | none => "err"
+      let rep := if arg a "later" != "" then rep.bump "ck.result_inspected_again_later" else rep
       let rep := if std.isEmpty then rep.bump "ck.empty_message" else rep
       let rep := if std.length > 1000 then rep.bump "ck.large_message" else rep.bump "ck.small_message"
       let rep := match ofHex (arg o "out") with
